@@ -568,13 +568,60 @@ class HandshakeRace(core.Scenario):
                 'polls': [(g.done, g.status, g.body) for g in self.polls]}
 
 
+def run_neighbour(impl, case, out):
+    """Another session of the same server is on WebSocket and its peer has stopped reading (a write to it is parked inside
+    the socket): a second session's handshake - upgrade or direct open - completes all the same, and its messages flow."""
+    w = peer.make_world(impl)
+    try:
+        A = peer.sid_of(peer.open_polling(w))
+        wa = peer.do_upgrade(w, A)
+        if w.transport(A) != 'websocket':
+            V(out, impl, 'correct_handshake_not_upgraded', 'neighbour', 'the first session did not upgrade', case)
+            return 'bad'
+        wa.stall_send = True
+        w.call('send', A, 'to-A')
+        w.run()
+        if case['neighbour'] == 'upgrade':
+            B = peer.sid_of(peer.open_polling(w))
+            wb = peer.do_upgrade(w, B)
+            if B is None or w.transport(B) != 'websocket' or '3probe' not in peer.ws_frames(wb):
+                V(out, impl, 'correct_handshake_not_upgraded', 'neighbour_backpressure',
+                  'session B sent a correct probe and UPGRADE while a write to session A was parked (its peer is not reading): frames to B %r, '
+                  'transport(B) = %r' % (peer.ws_frames(wb), None if B is None else w.transport(B)), case)
+                return 'bad'
+        else:
+            wb = peer.ws_open(w)
+            B = [e[1] for e in w.events if e[0] == 'connect'][-1] if wb.accepted else None
+            if B is None or not [f for f in peer.ws_frames(wb) if isinstance(f, str) and f.startswith('0')]:
+                V(out, impl, 'ws_open_not_websocket', 'neighbour_backpressure',
+                  'a WebSocket open while a write to session A was parked got frames %r' % (peer.ws_frames(wb),), case)
+                return 'bad'
+        w.call('send', B, 'to-B')
+        w.run()
+        if '4to-B' not in peer.ws_frames(wb):
+            V(out, impl, 'established_websocket_disturbed', 'neighbour_backpressure',
+              'a message sent to session B while a write to session A was parked did not arrive: frames to B %r' % (peer.ws_frames(wb),), case)
+        w.ws_release_send(wa)
+        w.run()
+        if '4to-A' not in peer.ws_frames(wa):
+            V(out, impl, 'established_websocket_disturbed', 'neighbour_backpressure',
+              'the parked message never reached session A once its peer read again: %r' % (peer.ws_frames(wa),), case)
+        return 'neighbour'
+    finally:
+        w.teardown()
+
+
 def _work(chunk):
     out = []
     outcomes = {}
     n = 0
     for what, impl, case in chunk:
         try:
-            if what == 'hist':
+            if what == 'hist' and 'neighbour' in case:
+                o = run_neighbour(impl, case, out)
+                outcomes[o] = outcomes.get(o, 0) + 1
+                n += 1
+            elif what == 'hist':
                 o = run_history(impl, case, out)
                 outcomes[o] = outcomes.get(o, 0) + 1
                 n += 1
@@ -618,6 +665,8 @@ def run(ctx):
         for bs in b_seqs:
             for order in sorted(set(itertools.permutations(['A', 'A'] + ['B'] * len(bs)))):
                 jobs.append(('hist', impl, {'events': [], 'queued': 0, 'poll': False, 'b': bs, 'order': list(order)}))
+        for nb in ('upgrade', 'ws_open'):
+            jobs.append(('hist', impl, {'neighbour': nb}))
         jobs.append(('cfg', impl, None))
     res = parallel.pmap_chunks(_work, parallel.split(jobs, ctx.workers * 6), ctx.workers, ctx.seed, maxtasks=6)
     n = 0
@@ -655,7 +704,7 @@ def run(ctx):
         'samples': [{'events': ['2probe', '', '5'], 'queued': 2, 'poll': True}] + samples[:2],
         'evaluations': n + st.executions, 'distinct_nontrivial': n + st.executions,
         'rule': 'history search: every event sequence of length <= 2 over %d handshake events%s x queued messages {0,1,2} x pending poll '
-                '{no,yes} (sequences of length <= 2 also after an earlier upgrade attempt whose socket was gone before the WebSocket accept, and after one that failed right after its probe), each with its recovery suffix, x {Server, AsyncServer}; transport configuration cells; schedule search: '
+                '{no,yes} (sequences of length <= 2 also after an earlier upgrade attempt whose socket was gone before the WebSocket accept, and after one that failed right after its probe), each with its recovery suffix, x {Server, AsyncServer}; a handshake (upgrade / direct open) of a second session while a write to a first, upgraded session is parked inside its socket; transport configuration cells; schedule search: '
                 'every 1-event and probe+1-event handshake raced against one poll and one send, all interleavings of the three '
                 'scripts at quiescence and up to %d deviation(s) (early injection / preemption). states = histories + distinct '
                 'race outcomes; transitions = environment steps (8 per history, estimated) + decision points of the race executions.'
@@ -687,6 +736,8 @@ def replay(ctx, payload):
     out = []
     if 'cfg' in r['case']:
         run_config_cells(r['impl'], out)
+    elif 'neighbour' in r['case']:
+        print('outcome:', run_neighbour(r['impl'], r['case'], out))
     else:
         print('outcome:', run_history(r['impl'], r['case'], out))
     for v in out:
